@@ -364,6 +364,35 @@ unsafe fn drop_cycle<T>(cycle: HashMap<Link<T>, usize>) {
     }
 }
 
+// Detach the allocation of `this` from the object graph because its value is
+// being moved out of it instead of being dropped (`Rc::try_unwrap` and the
+// sole-owner branch of `Rc::make_mut`).
+//
+// Such an allocation stops being a live object without going through `Drop`.
+// Every `Rc` it adopted, or was adopted by, holds a link to it; those links
+// must be purged, just like `drop_unreachable_with_adoptions` does, or a later
+// drop of a former peer walks into this allocation after it has been given up.
+// The link table itself owns heap memory and is destroyed here as well.
+//
+// The caller must hold the only strong reference and must not use the links of
+// `this` afterwards.
+pub(crate) unsafe fn abandon_adoptions<T>(this: &Rc<T>) {
+    let forward = Link::forward(this.ptr);
+    let backward = Link::backward(this.ptr);
+    let links = this.inner().links();
+    for (item, &strong) in links.borrow().iter() {
+        if ptr::eq(this.inner(), item.as_ptr()) {
+            continue;
+        }
+        let mut links = item.as_ref().links().borrow_mut();
+        links.remove(forward, strong);
+        links.remove(backward, strong);
+    }
+    let rcbox = this.ptr.as_ptr();
+    let links = mem::replace(&mut (*rcbox).links, MaybeUninit::uninit());
+    drop(links.assume_init());
+}
+
 // Drop an `Rc` that is unreachable, but has adopted other `Rc`s.
 //
 // Unreachable `Rc`s have a strong count of zero, but because they have adopted
